@@ -35,7 +35,7 @@ RULE = (
 # asymmetric by construction: skip / InitVar / init=False / serialized methods / conditional skip;
 # constraints that bear on the *input* (uniqueItems on data that differ only by defaulted keys,
 # maxProperties smaller than the number of fields); a str value under Union[Sequence[...], str]
-NON_BIJECTIVE = ("skip_variants", "initvar", "init_false", "ser_methods", "generic_ser_method", "ser_override", "ser_rec_method", "ser_if", "obj_cons", "con_list", "union_str[seq", "fbod_field", "inherit_post_init", "rec_cons", "custom_init")
+NON_BIJECTIVE = ("skip_variants", "initvar", "init_false", "ser_methods", "generic_ser_method", "dep_req_undefined", "ser_override", "ser_rec_method", "ser_if", "obj_cons", "con_list", "union_str[seq", "fbod_field", "inherit_post_init", "rec_cons", "custom_init")
 
 
 def bijective(label: str) -> bool:
